@@ -530,8 +530,64 @@ func identCase(n int, name string, out []byte, wantReg bool) run.Outcome {
 	return o
 }
 
+// backlogCase: the accept backlog (capacity k here) is full when datagrams from further new source
+// addresses arrive; they are refused. Once the application has accepted the queued connections, the
+// listener must be back to its initial behaviour for every address: a datagram from a previously refused
+// source creates a connection that Accept hands out (nothing was left behind for that address), and the
+// number of connections the listener holds never exceeds those it handed to the accept queue.
+func backlogCase(k, extra int) run.Outcome {
+	o := run.Outcome{NonTrivial: true, Class: "R:backlog", Evals: k + 2*extra}
+	fail := func(f string, a ...any) run.Outcome {
+		o.Key = "listener-backlog-refusal-leaves-state"
+		o.Violation = fmt.Sprintf("backlog k=%d, %d further sources: ", k, extra) + fmt.Sprintf(f, a...)
+		return o
+	}
+	l := newFakeListener(4)
+	ch := l.field("acceptCh")
+	ch.Set(reflect.MakeChan(ch.Type(), k))
+	src := func(i int) net.Addr { return rAddr(fmt.Sprintf("198.51.100.%d:%d", 1+i%200, 1000+i)) }
+	for i := 0; i < k; i++ {
+		if c, ok, err := l.getConn(src(i), clientHelloish()); err != nil || !ok || c == nil {
+			return fail("connection %d was not accepted although the backlog had room: ok=%v err=%v", i, ok, err)
+		}
+	}
+	for i := k; i < k+extra; i++ {
+		if c, ok, err := l.getConn(src(i), clientHelloish()); err == nil && ok && c != nil {
+			return fail("source %d obtained a connection although the backlog was full", i)
+		}
+	}
+	held := l.field("conns").Len()
+	if held > k {
+		return fail("the listener holds %d connections after %d were queued for Accept and %d were refused", held, k, extra)
+	}
+	// the application accepts everything that was queued
+	for i := 0; i < k; i++ {
+		if _, ok := ch.TryRecv(); !ok {
+			return fail("accept queue held fewer than %d connections", k)
+		}
+	}
+	// a refused source tries again: it must get a fresh connection that reaches the accept queue
+	for i := k; i < k+extra && i < 2*k; i++ {
+		c, ok, err := l.getConn(src(i), clientHelloish())
+		if err != nil || !ok || c == nil {
+			return fail("a source refused earlier gets no connection now that the backlog has room: ok=%v err=%v", ok, err)
+		}
+		got, recvOK := ch.TryRecv()
+		if !recvOK || got.Pointer() != reflect.ValueOf(c).Pointer() {
+			return fail("the connection for a source refused earlier is not handed to Accept (datagrams from %s go to a connection nobody can accept)", src(i))
+		}
+	}
+	return o
+}
+
 func routeCases(thorough bool) []run.Case {
 	var cases []run.Case
+	for _, k := range []int{1, 2, 128} {
+		for _, extra := range []int{1, 3, 20} {
+			k, extra := k, extra
+			cases = append(cases, run.Case{ID: fmt.Sprintf("R/backlog/k%d/x%d", k, extra), Run: func(*testing.T) run.Outcome { return backlogCase(k, extra) }})
+		}
+	}
 	for _, n := range []int{0, 1, 4, 8} {
 		for state := 0; state <= 2; state++ {
 			for _, pb := range catalogue(n, thorough) {
